@@ -946,3 +946,23 @@ func revokedInFlight(c *Client, rid string, t int) bool {
 	}
 	return false
 }
+
+// ---------------------------------------------------------------------------
+// C16 / C17: HTTP scenarios
+
+func init() {
+	register(&SimProp{
+		ID:       "C16",
+		Profiles: []*Profile{{Name: "c16-render"}},
+		Config:   c16Config,
+		Custom:   c16Scenario,
+		Monitors: func() []Monitor { return []Monitor{NewMonC16()} },
+	})
+	register(&SimProp{
+		ID:       "C17",
+		Profiles: []*Profile{{Name: "c17-http"}},
+		Config:   c17Config,
+		Custom:   c17Scenario,
+		Monitors: func() []Monitor { return []Monitor{NewMonC17()} },
+	})
+}
